@@ -359,11 +359,11 @@ pub fn store_put(s: Stored) -> u8 {
     })
 }
 
-fn store_take(key: u8) -> Option<Stored> {
+pub fn store_take(key: u8) -> Option<Stored> {
     W.with(|w| w.borrow_mut().store.get_mut(key as usize).and_then(Option::take))
 }
 
-fn store_peek_addr(key: u8) -> Option<Addr<Probe<0>>> {
+pub fn store_peek_addr(key: u8) -> Option<Addr<Probe<0>>> {
     W.with(|w| match w.borrow().store.get(key as usize) {
         Some(Some(Stored::Addr(a))) => Some(a.clone()),
         _ => None,
